@@ -31,6 +31,9 @@ structure Ctx where
   total : Nat
   regexValid : List (List Char × Bool)
   globValid : List (List Char × Bool)
+  /-- for a regex that `regex` refuses: the byte span (start, end) inside the regex text that `regex-syntax` blames; no entry
+      when `regex-syntax` accepts the text (`InvalidRegexWithoutMessage`) -/
+  regexErr : List (List Char × Nat × Nat) := []
 
 structure St where
   rest : List Char
@@ -174,6 +177,12 @@ def lookup (tbl : List (List Char × Bool)) (k : List Char) : Option Bool :=
   | some e => some e.2
   | none => none
 
+/-- the span `regex-syntax` blames, if it has one (it lies inside the text it was given: a table entry that does not is not used) -/
+def lookupSpan (tbl : List (List Char × Nat × Nat)) (k : List Char) : Option (Nat × Nat) :=
+  match tbl.find? (fun e => e.1 == k) with
+  | some e => if e.2.1 ≤ e.2.2 ∧ e.2.2 ≤ utf8Len k then some e.2 else none
+  | none => none
+
 def St.valid (st : St) (cx : Ctx) (isRegex : Bool) (text : List Char) : Bool × St :=
   match lookup (if isRegex then cx.regexValid else cx.globValid) text with
   | some b => (b, st)
@@ -200,7 +209,13 @@ def parseRegex (cx : Ctx) (st : St) : Option Matcher × St :=
     let st1 := st.withRest rest'
     let (ok, st2) := st1.valid cx true text
     if ok then (some (.regex text), st2)
-    else (none, st2.report .invalidRegex 0 0)   -- span comes from regex-syntax: not modelled
+    else
+      -- `ParseSingleError::invalid_regex(&res, start, end)`: start = after the opening `/`, end = at the closing one
+      let s := pos cx st
+      let e := pos cx st1
+      match lookupSpan cx.regexErr text with
+      | some (a, b) => (none, st2.report .invalidRegex (s + a) (b - a))
+      | none => (none, st2.report .invalidRegex s (e - s))
   | _ =>
     -- no closing `/`: resynchronise at the next `)`
     let (_, rest'') := takeTill (· == ')') st.rest
@@ -467,13 +482,13 @@ def parseTop (cx : Ctx) (input : List Char) : ERes × St :=
   | [] => (e, st1.withRest [])
   | _ => (e, st1.report .expectedEof (pos cx st1) (remLen st1))
 
-def mkCtx (input : List Char) (rv gv : List (List Char × Bool)) : Ctx :=
-  { total := utf8Len input, regexValid := rv, globValid := gv }
+def mkCtx (input : List Char) (rv gv : List (List Char × Bool)) (re : List (List Char × Nat × Nat)) : Ctx :=
+  { total := utf8Len input, regexValid := rv, globValid := gv, regexErr := re }
 
 /-- What `Filterset::parse` makes of the parser's result before compiling: an expression only if
     no error at all was recorded. -/
-def parseFilterset (input : List Char) (rv gv : List (List Char × Bool)) : Except (List PErr) PExpr :=
-  let (e, st) := parseTop (mkCtx input rv gv) input
+def parseFilterset (input : List Char) (rv gv : List (List Char × Bool)) (re : List (List Char × Nat × Nat)) : Except (List PErr) PExpr :=
+  let (e, st) := parseTop (mkCtx input rv gv re) input
   match e, st.errs with
   | some e, [] => .ok e
   | _, errs => .error errs
